@@ -99,16 +99,11 @@ fn gen_window(g: &mut Gen, h: &Hist, max_range: u64, within: Option<(u64, u64)>)
     let (mut s, mut e) = (start, end);
     if let Some((ws, we)) = within {
         // a subintent window that overlaps the root's
-        if s >= we {
-            s = ws;
+        if s >= we || e <= ws {
+            s = ws.saturating_sub(g.below(20));
+            e = (s + 1 + g.below(max_range)).max(ws + 1);
         }
-        if e <= ws.max(s) {
-            e = (ws.max(s) + 1 + g.below(50)).min(s + max_range);
-        }
-        if s.max(ws) >= e.min(we) {
-            s = ws;
-            e = (ws + 1 + g.below(max_range)).min(s + max_range);
-        }
+        e = e.min(s + max_range);
     }
     (s, e)
 }
@@ -517,7 +512,7 @@ fn case(g: &mut Gen) -> Outcome {
 }
 
 pub fn engine_part() -> Part {
-    Part::new("engine", 700, 30_000, 600, case)
+    Part::new("engine", 600, 30_000, 600, case)
 }
 
 pub fn check() -> Check {
